@@ -22,29 +22,29 @@ const logMod = "berty.tech/go-ipfs-log"
 
 // Ctx is everything one run knows about the analysed tree.
 type Ctx struct {
-	Repo       string
-	Tier       string
-	GOARCH     string
-	Fset       *token.FileSet
-	Roots      []*packages.Package
-	All        map[string]*packages.Package
-	Prog       *ssa.Program
-	RepoFns    []*ssa.Function // every function (incl. closures) whose package is a non-test repo package
-	TestFns    []*ssa.Function // functions of test packages / _test files (thorough only)
-	cg         *callgraph.Graph
-	cgKind     string
-	Obls       []*Obligation
-	Notes      []string
-	DepFacts   map[string]string
-	Counts     map[string]int
-	WithCtl    bool
-	fnByKey    map[string]*ssa.Function
-	ifaceCache map[string]*types.Interface
-	wireTaint  map[ssa.Value]bool // values derived from a received heads list (set by T1)
+	Repo         string
+	Tier         string
+	GOARCH       string
+	Fset         *token.FileSet
+	Roots        []*packages.Package
+	All          map[string]*packages.Package
+	Prog         *ssa.Program
+	RepoFns      []*ssa.Function // every function (incl. closures) whose package is a non-test repo package
+	TestFns      []*ssa.Function // functions of test packages / _test files (thorough only)
+	cg           *callgraph.Graph
+	cgKind       string
+	Obls         []*Obligation
+	Notes        []string
+	DepFacts     map[string]string
+	Counts       map[string]int
+	WithCtl      bool
+	fnByKey      map[string]*ssa.Function
+	ifaceCache   map[string]*types.Interface
+	wireTaint    map[ssa.Value]bool // values derived from a received heads list (set by T1)
 	lenCacheMemo map[*types.Var]bool
-	lockMemo   *lockMemo
-	replMemo   *replImpl
-	allFnsMemo map[*ssa.Function]bool
+	lockMemo     *lockMemo
+	replMemo     *replImpl
+	allFnsMemo   map[*ssa.Function]bool
 }
 
 // allFns: every function of the program, dependencies included.
